@@ -447,3 +447,391 @@ pub fn text_written_ok(v1: u32, v2: u32) -> Result<(), String> {
     }
     Ok(())
 }
+
+//------------ instants: a clock value converted into a serial ----------------
+
+/// `Serial::from(jiff::Timestamp)` for the instant `t` seconds relative to
+/// the epoch (negative: before it).  The jiff timestamp is made in several
+/// ways (from seconds, from milliseconds, from a `SystemTime`); all routes
+/// must give the same serial.
+pub fn lib_instant(t: i64) -> Result<u32, String> {
+    use std::time::{Duration, UNIX_EPOCH};
+    let mut seen: Vec<(&'static str, u32)> = vec![];
+    let a = jiff::Timestamp::from_second(t).map_err(|e| format!("from_second: {e}"))?;
+    seen.push(("from_second", Serial::from(a).into_int()));
+    let b = jiff::Timestamp::from_millisecond(t * 1000)
+        .map_err(|e| format!("from_millisecond: {e}"))?;
+    seen.push(("from_millisecond", Serial::from(b).into_int()));
+    let st = if t >= 0 {
+        UNIX_EPOCH + Duration::from_secs(t as u64)
+    } else {
+        UNIX_EPOCH - Duration::from_secs(t.unsigned_abs())
+    };
+    let c = jiff::Timestamp::try_from(st).map_err(|e| format!("from SystemTime: {e}"))?;
+    seen.push(("from_system_time", Serial::from(c).into_int()));
+    let d = jiff::Timestamp::UNIX_EPOCH
+        .checked_add(jiff::SignedDuration::from_secs(t))
+        .map_err(|e| format!("epoch + duration: {e}"))?;
+    seen.push(("epoch_plus", Serial::from(d).into_int()));
+    let first = seen[0].1;
+    for (name, v) in &seen {
+        if *v != first {
+            return Err(format!("routes disagree at t={t}: from_second {first} vs {name} {v}"));
+        }
+    }
+    Ok(first)
+}
+
+//------------ validity windows -----------------------------------------------
+
+fn sipround(v: &mut [u64; 4]) {
+    v[0] = v[0].wrapping_add(v[1]);
+    v[1] = v[1].rotate_left(13);
+    v[1] ^= v[0];
+    v[0] = v[0].rotate_left(32);
+    v[2] = v[2].wrapping_add(v[3]);
+    v[3] = v[3].rotate_left(16);
+    v[3] ^= v[2];
+    v[0] = v[0].wrapping_add(v[3]);
+    v[3] = v[3].rotate_left(21);
+    v[3] ^= v[0];
+    v[2] = v[2].wrapping_add(v[1]);
+    v[1] = v[1].rotate_left(17);
+    v[1] ^= v[2];
+    v[2] = v[2].rotate_left(32);
+}
+
+/// SipHash-2-4 (Aumasson & Bernstein), output as the reference
+/// implementation's little-endian octets; independent of the siphasher crate.
+fn siphash24(key: &[u8; 16], data: &[u8]) -> [u8; 8] {
+    let k0 = u64::from_le_bytes(key[0..8].try_into().unwrap());
+    let k1 = u64::from_le_bytes(key[8..16].try_into().unwrap());
+    let mut v = [
+        k0 ^ 0x736f6d6570736575,
+        k1 ^ 0x646f72616e646f6d,
+        k0 ^ 0x6c7967656e657261,
+        k1 ^ 0x7465646279746573,
+    ];
+    let mut chunks = data.chunks_exact(8);
+    for c in &mut chunks {
+        let m = u64::from_le_bytes(c.try_into().unwrap());
+        v[3] ^= m;
+        sipround(&mut v);
+        sipround(&mut v);
+        v[0] ^= m;
+    }
+    let rem = chunks.remainder();
+    let mut last = [0u8; 8];
+    last[..rem.len()].copy_from_slice(rem);
+    last[7] = data.len() as u8;
+    let m = u64::from_le_bytes(last);
+    v[3] ^= m;
+    sipround(&mut v);
+    sipround(&mut v);
+    v[0] ^= m;
+    v[2] ^= 0xff;
+    for _ in 0..4 {
+        sipround(&mut v);
+    }
+    (v[0] ^ v[1] ^ v[2] ^ v[3]).to_le_bytes()
+}
+
+const COOKIE_SECRET: [u8; 16] = [
+    0xe5, 0xe9, 0x73, 0xe5, 0xa6, 0xb2, 0xa4, 0x3f, 0x48, 0xe7, 0xdc, 0x84, 0x9e, 0x37, 0xbf,
+    0xcf,
+];
+
+/// A correctly hashed 24-octet version-1 interoperable cookie (RFC 9018
+/// section 4) carrying the given timestamp.
+fn make_cookie(timestamp: u32, addr: std::net::IpAddr) -> [u8; 24] {
+    let mut bytes = [0u8; 24];
+    bytes[0..8].copy_from_slice(&[0x24, 0x64, 0xc4, 0xab, 0xcf, 0x10, 0xc9, 0x57]);
+    bytes[8..12].copy_from_slice(&[1, 0, 0, 0]);
+    bytes[12..16].copy_from_slice(&timestamp.to_be_bytes());
+    let mut data = bytes[..16].to_vec();
+    match addr {
+        std::net::IpAddr::V4(a) => data.extend_from_slice(&a.octets()),
+        std::net::IpAddr::V6(a) => data.extend_from_slice(&a.octets()),
+    }
+    let hash = siphash24(&COOKIE_SECRET, &data);
+    bytes[16..24].copy_from_slice(&hash);
+    bytes
+}
+
+fn yes_no(b: bool) -> &'static str {
+    if b {
+        "accept"
+    } else {
+        "reject"
+    }
+}
+
+/// `new::edns::Cookie::verify` of a correctly hashed cookie made at `x` by a
+/// verifier whose validity window is [lo, hi), for an IPv4 and an IPv6
+/// client.  (Self-check: the same cookie with one hash bit flipped must be
+/// refused whatever the window, otherwise the hash is not what decides.)
+pub fn cookie_decision(lo: u32, hi: u32, x: u32) -> String {
+    use domain::new::base::wire::ParseBytesZC;
+    use domain::new::base::Serial as NewSerial;
+    use domain::new::edns::Cookie;
+    let addrs: [std::net::IpAddr; 2] = [
+        std::net::IpAddr::V4(std::net::Ipv4Addr::new(198, 51, 100, 100)),
+        std::net::IpAddr::V6(std::net::Ipv6Addr::new(0x2001, 0xdb8, 0, 0, 0, 0, 0, 0x53)),
+    ];
+    let mut first: Option<bool> = None;
+    for addr in addrs {
+        let bytes = make_cookie(x, addr);
+        let Ok(cookie) = Cookie::parse_bytes_by_ref(&bytes[..]) else {
+            return "harness: cookie does not parse".into();
+        };
+        if cookie.timestamp().get() != x {
+            return format!("cookie timestamp reads {} for {}", cookie.timestamp().get(), x);
+        }
+        let ok = cookie
+            .verify(addr, &COOKIE_SECRET, NewSerial::new(lo)..NewSerial::new(hi))
+            .is_ok();
+        let mut bad = bytes;
+        bad[23] ^= 1;
+        if let Ok(c) = Cookie::parse_bytes_by_ref(&bad[..]) {
+            if c.verify(addr, &COOKIE_SECRET, NewSerial::new(lo)..NewSerial::new(hi)).is_ok() {
+                return "harness: a cookie with a wrong hash verifies".into();
+            }
+        }
+        match first {
+            None => first = Some(ok),
+            Some(f) if f != ok => return "v4 and v6 clients are judged differently".into(),
+            _ => {}
+        }
+    }
+    yes_no(first.unwrap_or(false)).into()
+}
+
+/// Every site that decides "x lies in the window [lo, hi)".
+pub fn window_sites(lo: u32, hi: u32, x: u32) -> serde_json::Value {
+    use domain::new::base::Serial as NewSerial;
+    let cookie = catch_unwind(AssertUnwindSafe(|| cookie_decision(lo, hi, x)))
+        .unwrap_or_else(|_| "panic".to_string());
+    serde_json::json!({
+        "cookie": cookie,
+        "newrange": yes_no((NewSerial::new(lo)..NewSerial::new(hi)).contains(&NewSerial::new(x))),
+        "range": yes_no((Serial(lo)..Serial(hi)).contains(&Serial(x))),
+        "tsrange": yes_no((Timestamp::from(lo)..Timestamp::from(hi)).contains(&Timestamp::from(x))),
+    })
+}
+
+//------------ conversion routes that carry a serial / signature times ---------
+
+use domain::base::name::{FlattenInto, ParsedName};
+use domain::base::rdata::ComposeRecordData;
+use domain::base::Record;
+use domain::rdata::dnssec::ProtoRrsig;
+use domain::rdata::Rrsig;
+use octseq::octets::OctetsFrom;
+use octseq::parse::Parser;
+
+fn all_same<T: PartialEq + Copy + std::fmt::Debug>(
+    what: &str,
+    seen: &[(&'static str, T)],
+) -> Result<T, String> {
+    let first = seen[0].1;
+    for (name, v) in seen {
+        if *v != first {
+            return Err(format!(
+                "{what}: route {} gives {:?}, route {} gives {:?}",
+                seen[0].0, first, name, v
+            ));
+        }
+    }
+    Ok(first)
+}
+
+/// The 32-bit value `x` made into a `Serial` and taken out again through
+/// every constructor / accessor pair of the type.
+pub fn serial_routes(x: u32) -> Result<u32, String> {
+    let mut seen: Vec<(&'static str, u32)> = vec![("tuple", Serial(x).0)];
+    seen.push(("from_u32/into_int", Serial::from(x).into_int()));
+    seen.push(("from_be_bytes/u32::from", u32::from(Serial::from_be_bytes(x.to_be_bytes()))));
+    let text = format!("{}", Serial(x));
+    seen.push(("display/from_str", Serial::from_str(&text).map_err(|e| e.to_string())?.0));
+    let mut sc = IterScanner::<_, Vec<u8>>::new([text.as_str()]);
+    seen.push(("display/scan", Serial::scan(&mut sc).map_err(|e| format!("{e}"))?.0));
+    let mut buf: Vec<u8> = Vec::new();
+    Serial(x).compose(&mut buf).map_err(|_| "compose".to_string())?;
+    if buf != x.to_be_bytes() {
+        return Err(format!("compose wrote {buf:?} for {x}"));
+    }
+    let mut p = Parser::from_ref(buf.as_slice());
+    seen.push(("compose/parse", Serial::parse(&mut p).map_err(|e| e.to_string())?.0));
+    all_same("Serial", &seen)
+}
+
+fn soa_with(serial: Serial) -> Soa<Name<Vec<u8>>> {
+    Soa::new(
+        Name::<Vec<u8>>::from_str("ns.example.").unwrap(),
+        Name::<Vec<u8>>::from_str("host.example.").unwrap(),
+        serial,
+        Ttl::from_secs(3600),
+        Ttl::from_secs(600),
+        Ttl::from_secs(86400),
+        Ttl::from_secs(60),
+    )
+}
+
+fn zonefile_soa_serial(text: &str) -> Result<u32, String> {
+    let mut zone = Zonefile::from(text);
+    match zone.next_entry() {
+        Ok(Some(Entry::Record(r))) => match r.data() {
+            ZoneRecordData::Soa(soa) => Ok(soa.serial().into_int()),
+            _ => Err("not an SOA".into()),
+        },
+        Ok(_) => Err("no record".into()),
+        Err(e) => Err(format!("{e}")),
+    }
+}
+
+/// The serial of an SOA record after each conversion route: wire round
+/// trip, octets conversion (record data and the `ZoneRecordData` enum),
+/// flattening of the parsed form, and -- with `text` -- the zone-file
+/// formatter in its three layouts read back by the zone-file reader.
+pub fn soa_serial_routes(x: u32, text: bool) -> Result<u32, String> {
+    let soa = soa_with(Serial(x));
+    let mut seen: Vec<(&'static str, u32)> = vec![("new", soa.serial().into_int())];
+    let mut buf: Vec<u8> = Vec::new();
+    soa.compose_rdata(&mut buf).map_err(|_| "compose".to_string())?;
+    let mut p = Parser::from_ref(buf.as_slice());
+    let parsed = Soa::parse(&mut p).map_err(|e| e.to_string())?;
+    seen.push(("wire", parsed.serial().into_int()));
+    let flat: Soa<Name<Vec<u8>>> =
+        parsed.clone().try_flatten_into().map_err(|_| "flatten".to_string())?;
+    seen.push(("flatten_into", flat.serial().into_int()));
+    let conv = Soa::<Name<Bytes>>::try_octets_from(soa.clone()).map_err(|_| "octets_from")?;
+    seen.push(("octets_from", conv.serial().into_int()));
+    let zrd: ZoneRecordData<Vec<u8>, Name<Vec<u8>>> = ZoneRecordData::Soa(soa.clone());
+    let zrd2 = ZoneRecordData::<Bytes, Name<Bytes>>::try_octets_from(zrd)
+        .map_err(|_| "enum octets_from".to_string())?;
+    match &zrd2 {
+        ZoneRecordData::Soa(s) => seen.push(("enum_octets_from", s.serial().into_int())),
+        _ => return Err("enum conversion changed the type".into()),
+    }
+    let zparsed: ZoneRecordData<&[u8], ParsedName<&[u8]>> = ZoneRecordData::Soa(parsed);
+    let zflat: ZoneRecordData<Vec<u8>, Name<Vec<u8>>> =
+        zparsed.try_flatten_into().map_err(|_| "enum flatten".to_string())?;
+    match &zflat {
+        ZoneRecordData::Soa(s) => seen.push(("enum_flatten_into", s.serial().into_int())),
+        _ => return Err("enum flattening changed the type".into()),
+    }
+    if text {
+        let rec = Record::new(
+            Name::<Vec<u8>>::from_str("example.").unwrap(),
+            Class::IN,
+            Ttl::from_secs(3600),
+            soa.clone(),
+        );
+        for (name, kind) in [
+            ("zonefile_simple", DisplayKind::Simple),
+            ("zonefile_tabbed", DisplayKind::Tabbed),
+            ("zonefile_multiline", DisplayKind::Multiline),
+        ] {
+            let mut t = format!("{}", rec.display_zonefile(kind));
+            t.push('\n');
+            seen.push((name, zonefile_soa_serial(&t).map_err(|e| format!("{name}: {e}: {t:?}"))?));
+        }
+        let shown = format!("example. 3600 IN SOA {}\n", soa);
+        seen.push(("display", zonefile_soa_serial(&shown).map_err(|e| format!("display: {e}"))?));
+    }
+    all_same("SOA serial", &seen)
+}
+
+/// (expiration, inception) of an RRSIG after each conversion route: wire
+/// round trip, octets conversion and flattening of `Rrsig`, of the
+/// `ZoneRecordData` enum and of `ProtoRrsig` (then `into_rrsig`).
+pub fn rrsig_times_routes(exp: u32, inc: u32) -> Result<(u32, u32), String> {
+    use domain::base::iana::SecurityAlgorithm;
+    let times = |r: (Timestamp, Timestamp)| (r.0.into_int(), r.1.into_int());
+    let signer = Name::<Vec<u8>>::from_str("example.").unwrap();
+    let rrsig: Rrsig<Vec<u8>, Name<Vec<u8>>> = Rrsig::new(
+        Rtype::A,
+        SecurityAlgorithm::ED25519,
+        2,
+        Ttl::from_secs(300),
+        Timestamp::from(exp),
+        Timestamp::from(inc),
+        4711,
+        signer.clone(),
+        vec![0u8; 8],
+    )
+    .map_err(|_| "long record".to_string())?;
+    let mut seen: Vec<(&'static str, (u32, u32))> =
+        vec![("new", times((rrsig.expiration(), rrsig.inception())))];
+    let mut buf: Vec<u8> = Vec::new();
+    rrsig.compose_rdata(&mut buf).map_err(|_| "compose".to_string())?;
+    let mut p = Parser::from_ref(buf.as_slice());
+    let parsed = Rrsig::parse(&mut p).map_err(|e| e.to_string())?;
+    seen.push(("wire", times((parsed.expiration(), parsed.inception()))));
+    let flat: Rrsig<Vec<u8>, Name<Vec<u8>>> =
+        parsed.clone().try_flatten_into().map_err(|_| "flatten".to_string())?;
+    seen.push(("flatten_into", times((flat.expiration(), flat.inception()))));
+    let conv = Rrsig::<Bytes, Name<Bytes>>::try_octets_from(rrsig.clone())
+        .map_err(|_| "octets_from".to_string())?;
+    seen.push(("octets_from", times((conv.expiration(), conv.inception()))));
+    let zrd: ZoneRecordData<Vec<u8>, Name<Vec<u8>>> = ZoneRecordData::Rrsig(rrsig.clone());
+    match ZoneRecordData::<Bytes, Name<Bytes>>::try_octets_from(zrd) {
+        Ok(ZoneRecordData::Rrsig(r)) => {
+            seen.push(("enum_octets_from", times((r.expiration(), r.inception()))))
+        }
+        _ => return Err("enum conversion failed or changed the type".into()),
+    }
+    let zparsed: ZoneRecordData<&[u8], ParsedName<&[u8]>> = ZoneRecordData::Rrsig(parsed);
+    let zflat: Result<ZoneRecordData<Vec<u8>, Name<Vec<u8>>>, _> = zparsed.try_flatten_into();
+    match zflat {
+        Ok(ZoneRecordData::Rrsig(r)) => {
+            seen.push(("enum_flatten_into", times((r.expiration(), r.inception()))))
+        }
+        _ => return Err("enum flattening failed or changed the type".into()),
+    }
+    // ProtoRrsig: the RDATA head that is signed; its composed octets carry
+    // the times at offsets 8..12 and 12..16
+    let proto = ProtoRrsig::new(
+        Rtype::A,
+        SecurityAlgorithm::ED25519,
+        2,
+        Ttl::from_secs(300),
+        Timestamp::from(exp),
+        Timestamp::from(inc),
+        4711,
+        signer.clone(),
+    );
+    let mut head: Vec<u8> = Vec::new();
+    proto.compose(&mut head).map_err(|_| "proto compose".to_string())?;
+    if head.len() < 16 {
+        return Err("ProtoRrsig composed too short".into());
+    }
+    seen.push((
+        "proto_compose",
+        (
+            u32::from_be_bytes(head[8..12].try_into().unwrap()),
+            u32::from_be_bytes(head[12..16].try_into().unwrap()),
+        ),
+    ));
+    let pconv = ProtoRrsig::<Name<Bytes>>::try_octets_from(proto.clone())
+        .map_err(|_| "proto octets_from".to_string())?;
+    let r = pconv.into_rrsig(vec![0u8; 8]).map_err(|_| "into_rrsig".to_string())?;
+    seen.push(("proto_octets_from", times((r.expiration(), r.inception()))));
+    let mut p2 = Parser::from_ref(&head[18..]);
+    let pname = ParsedName::parse(&mut p2).map_err(|e| e.to_string())?;
+    let pparsed = ProtoRrsig::new(
+        Rtype::A,
+        SecurityAlgorithm::ED25519,
+        2,
+        Ttl::from_secs(300),
+        Timestamp::from(exp),
+        Timestamp::from(inc),
+        4711,
+        pname,
+    );
+    let pflat: ProtoRrsig<Name<Vec<u8>>> =
+        pparsed.try_flatten_into().map_err(|_| "proto flatten".to_string())?;
+    let r = pflat.into_rrsig(vec![0u8; 8]).map_err(|_| "into_rrsig".to_string())?;
+    seen.push(("proto_flatten_into", times((r.expiration(), r.inception()))));
+    all_same("RRSIG times", &seen)
+}
